@@ -524,6 +524,22 @@ func GenC04(seed uint64) *Plan {
 		}
 		p.Sources = append(p.Sources, s2)
 	}
+	if len(p.Sources) > 1 && g.chance(30) {
+		// one dependency graph (referenced integrations and a dependent with
+		// lookups) running on both sources: every integration has two tasks
+		// that are in their inserts and lookups at the same time
+		g.depGraph(p, uint64(g.between(4, 10)), 0)
+		for _, d := range p.Decls {
+			d.Sources = append(d.Sources, model.SrcRef{Name: p.Sources[1].Name, Start: d.Sources[0].Start})
+		}
+		p.Idle = nil
+		p.Checks["deps"] = true
+		g.transientFaults(p)
+		p.Faults.Stall, p.Faults.JumpPerMille = false, 0
+		p.SharedPool = g.chance(40)
+		p.Checks["permute_integrations"] = true
+		return p
+	}
 	nd := g.between(2, 3)
 	var first *model.Decl
 	// decided first: an integration that has reached its stop is finished
